@@ -12,8 +12,8 @@ C = json.load(open(os.path.join(V, 'mutants', 'CORPUS.json')))
 
 
 def corpus_key(sid):
-    m = re.match(r'^(C\d\d)-(r2-)?(\d)$', sid)
-    return ('seed2-' if m.group(2) else 'seed-') + m.group(1) + '-' + m.group(3)
+    m = re.match(r'^(C\d\d)-(?:r(\d)-)?(\d)$', sid)
+    return ('seed%s-' % m.group(2) if m.group(2) else 'seed-') + m.group(1) + '-' + m.group(3)
 
 
 rows = []
@@ -44,6 +44,9 @@ for sid in sorted(os.listdir(os.path.join(V, 'seeded'))):
         for k in sorted(det, key=lambda k: (k != own, k)):
             parts.append('%s: %s' % (k, ', '.join(det[k])))
         cell = '; '.join(parts)
+        if own not in det:
+            cell = '(own check silent) ' + cell
+    meta['detected_by_own_property_check'] = bool(det and own in det)
     rows.append('| %s | %s | %s | %s | %s |' % (sid, d.get('site', '?'), d.get('change', '?'), d.get('needs', '?'), cell))
 
 table = ['| seed | site | change | needs, to manifest | reported by |', '|---|---|---|---|---|'] + rows
@@ -53,5 +56,6 @@ a, b = '<!-- SEED-TABLE-BEGIN -->', '<!-- SEED-TABLE-END -->'
 if a in s:
     s = s[:s.index(a) + len(a)] + '\n' + '\n'.join(table) + '\n' + s[s.index(b):]
     open(dp, 'w').write(s)
+print(sum(1 for r in rows if 'own check silent' in r), 'detected only by another property\'s check;')
 print(len(rows), 'seeds;', sum(1 for r in rows if '**missed**' in r), 'missed;',
       sum(1 for r in rows if 'not measured' in r), 'not measured')
